@@ -30,9 +30,13 @@ for p in props:
         'replay_cmd_template': './check %s --replay {path}' % pid,
         'engine': 'vmon',
         'level_claimed': {'category': m.LEVEL,
-                          'text': getattr(m, 'LEVEL_TEXT', 'Runtime monitoring: the real functions are executed on the '
-                                  'workload described in the evidence rule; an independent executable oracle judges every '
-                                  'observed call. Held on the executions observed, nothing more.'),
+                          'text': getattr(m, 'LEVEL_TEXT', None) or (
+                              'Runtime monitoring (%s): the real functions of the working tree are executed on generated, boundary '
+                              'and hostile workloads (incl. sequences that repeat a call with one configuration element changed) and '
+                              'every observed execution is judged by a monitor against an independent executable oracle. The verdict '
+                              'is "held on the executions observed" (counts, class buckets, samples and max error/tolerance are in '
+                              'the evidence), nothing more; inconclusive (exit 2) when a deciding monitor saw nothing. Workload and '
+                              'oracle: %s' % (m.TITLE, m.RULE[:700])),
                           'design_ref': 'DESIGN.md section 4 (%s)' % pid},
         'level_note': getattr(m, 'LEVEL_NOTE', '; '.join(m.ASSUMPTIONS)),
         'technique': getattr(m, 'TECHNIQUE', 'runtime monitoring: post-condition monitors with an independent reference oracle over generated workloads'),
